@@ -44,6 +44,15 @@ def gen_blocks(rng):
             decomposed.append((B, x))
             if rng.random() < 0.3:
                 points.append(xb)
+        elif c < 0.58 and len(points) >= 2:
+            # a point written on the fly and decomposed at once: nobody holds the point itself
+            B, d = rng.choice(parts)
+            a, b = rng.sample(points, 2)
+            xb = nm("xt")
+            ops.append({"op": "block_temp", "out": xb, "B": B, "k": rng.randrange(d),
+                        "terms": [[a, 1.0], [b, float("%.2g" % rng.uniform(-1, 1))]]})
+            if rng.random() < 0.3:
+                points.append(xb)
         elif c < 0.65 and len(points) >= 2:
             a, b = rng.sample(points, 2)
             x = nm("y")
